@@ -2001,7 +2001,14 @@ func (db *DB) CommitJournal(ctx context.Context, mode JournalMode) (err error) {
 	var commit uint32
 	if _, err := dbFile.Seek(SQLITE_DATABASE_SIZE_OFFSET, io.SeekStart); err != nil {
 		return fmt.Errorf("cannot seek to database size: %w", err)
-	} else if err := binary.Read(dbFile, binary.BigEndian, &commit); err != nil {
+	} else if err := binary.Read(dbFile, binary.BigEndian, &commit); err == io.EOF && prevPageN == 0 {
+		// The first transaction of a new database was rolled back so SQLite
+		// has cut the file back to zero bytes. There is nothing to commit.
+		if err := db.invalidateJournal(mode); err != nil {
+			return fmt.Errorf("invalidate journal: %w", err)
+		}
+		return nil
+	} else if err != nil {
 		return fmt.Errorf("cannot read database size: %w", err)
 	}
 
